@@ -63,7 +63,9 @@ type worker struct {
 	extra  map[string]*packet.Session // sessions over the special NIC configurations (nil: NewSession refused it)
 	curCfg string                     // description of the environment of the current vector ("" = default)
 	state  string                     // session state class to establish before every concrete case
-	nt     int                        // what the current vector exercised: 1 real code executed, 2 value compared (C02), 4 alias checked (C16)
+	skey   string                     // key of the current environment session
+	primed map[string]int
+	nt     int // what the current vector exercised: 1 real code executed, 2 value compared (C02), 4 alias checked (C16)
 }
 
 func (w *worker) emit(r rec) {
@@ -209,6 +211,8 @@ type parseObs struct {
 	bytes     map[string][]byte     // the slices returned by the six slice accessors
 	views     map[string]viewObs    // observed views: Ether IP4 IP6 UDP TCP + payload views
 	vbytes    map[string][]byte
+	srcMAC    []byte // Frame.SrcAddr.MAC / DstAddr.MAC as returned (C16: must alias p[6:12] / p[0:6])
+	dstMAC    []byte
 }
 
 // doParse calls Session.Parse under recover (and under the hang marker).
@@ -260,6 +264,7 @@ func (w *worker) observeFrame(v *vector, buf []byte, fr packet.Frame, err error,
 		s, _ := whole.sliceText(unsafe.Pointer(&m[0]), len(m))
 		return s
 	}
+	o.srcMAC, o.dstMAC = fr.SrcAddr.MAC, fr.DstAddr.MAC
 	o.addr["SrcMAC"] = mac(fr.SrcAddr.MAC)
 	o.addr["DstMAC"] = mac(fr.DstAddr.MAC)
 	o.addr["SrcIP"] = fr.SrcAddr.IP.String()
@@ -791,12 +796,16 @@ func (w *worker) checkAlias(v *vector, o *outcome, ob parseObs, buf []byte, data
 	if ob.panicText != "" || ob.err {
 		return
 	}
-	want := map[string]int{"Ether": 0, "IP4": o.IP4, "IP6": o.IP6, "UDP": o.UDP, "TCP": o.TCP, "Payload": o.Pay}
+	want := map[string]int{"Ether": 0, "IP4": o.IP4, "IP6": o.IP6, "UDP": o.UDP, "TCP": o.TCP, "Payload": o.Pay, "SrcAddr.MAC": 6, "DstAddr.MAC": 0}
 	base := dataPtr(buf)
-	for _, name := range frameSlices {
-		b, ok := ob.bytes[name]
+	views := map[string][]byte{"SrcAddr.MAC": ob.srcMAC, "DstAddr.MAC": ob.dstMAC}
+	for k, b := range ob.bytes {
+		views[k] = b
+	}
+	for _, name := range append(append([]string{}, frameSlices...), "SrcAddr.MAC", "DstAddr.MAC") {
+		b, ok := views[name]
 		off := want[name]
-		if !ok || (name != "Ether" && off == 0) {
+		if !ok || (name != "Ether" && name != "DstAddr.MAC" && off == 0) {
 			continue
 		}
 		if len(b) == 0 {
@@ -1087,8 +1096,48 @@ func (w *worker) prime(data []byte) {
 	case "host-offline":
 		w.doParse(append([]byte{}, data...))
 		w.s.VerifPurge(time.Now().Add(3 * time.Minute)) // older than OfflineDeadline (2 m), younger than PurgeDeadline (4 m)
+	case "many-macs":
+		if w.primed[w.skey+"|many"] == 0 {
+			w.primed[w.skey+"|many"] = 1
+			for i := 0; i < 320; i++ {
+				m := net.HardwareAddr{0x02, 0x00, 0x00, 0x07, byte(i >> 8), byte(i)}
+				w.trackHost(m, i, 600+i)
+			}
+		}
+	default:
+		if strings.HasPrefix(w.state, "mac-hosts-") {
+			n, _ := strconv.Atoi(w.state[len("mac-hosts-"):])
+			key := w.skey + "|" + string(mac)
+			for i := w.primed[key]; i < n; i++ {
+				w.trackHost(mac, i, int(mac[5])*1000+i)
+			}
+			if w.primed[key] < n {
+				w.primed[key] = n
+			}
+		}
 	}
 	w.cnt["primed_"+w.state]++
+}
+
+// trackHost makes the session track one more address of mac through Parse: the i-th address is an
+// in-LAN IPv4 address for even i as long as the LAN has spare ones (a60, a61, ...: never an address the
+// shapes use), else a link-local address built from uniq.
+func (w *worker) trackHost(mac net.HardwareAddr, i, uniq int) {
+	rng := rand.New(rand.NewSource(int64(uniq)))
+	if i%2 == 0 && 60+i/2 < 190 {
+		if ip := w.u.IP("a" + strconv.Itoa(60+i/2)); w.u.Cfg.HomeLAN.Contains(ip) && ip != w.u.Cfg.HostIP && ip != w.u.Cfg.RouterIP {
+			f := w.staleFrame(0, rng)
+			copy(f[6:12], mac)
+			a := ip.As4()
+			copy(f[26:30], a[:])
+			w.doParse(f)
+			return
+		}
+	}
+	f := w.staleFrame(1, rng)
+	copy(f[6:12], mac)
+	copy(f[22:38], []byte{0xfe, 0x80, 0, 0, 0, 0, 0, 0, 0, 0, 0, 0x77, byte(uniq >> 16), byte(uniq >> 8), byte(uniq), mac[5]})
+	w.doParse(f)
 }
 
 var logLevels = map[string]fastlog.LogLevel{"error": fastlog.LevelError, "info": fastlog.LevelInfo, "debug": fastlog.LevelDebug}
@@ -1097,7 +1146,7 @@ var logLevels = map[string]fastlog.LogLevel{"error": fastlog.LevelError, "info":
 
 func runWorker(vecs []*vector, tab *table, from, to, k int, seed int64, cfg int, ids map[int]bool, skip map[int]map[string]bool, deadline time.Duration, out *os.File) int {
 	w := &worker{seed: seed, k: k, tab: tab, out: bufio.NewWriterSize(out, 1<<16), cnt: map[string]int{}, hexed: map[string]int{}, seen: map[string]int{},
-		skip: skip, frameT: reflect.TypeOf(packet.Frame{}), extra: map[string]*packet.Session{}}
+		skip: skip, frameT: reflect.TypeOf(packet.Frame{}), extra: map[string]*packet.Session{}, primed: map[string]int{}}
 	w.u = &vh.Universe{Cfg: vh.Configs[cfg%len(vh.Configs)]}
 	s, _, err := vh.NewSession(w.u, 1, 2, 4)
 	if err != nil {
@@ -1130,7 +1179,7 @@ func runWorker(vecs []*vector, tab *table, from, to, k int, seed int64, cfg int,
 				w.cnt["vectors_cfgparse"]++
 				w.cnt["vectors_env_"+v.Cfg+"_"+v.State+"_"+v.Log]++
 				base := w.s
-				w.s, w.state = cs, v.State
+				w.s, w.state, w.skey = cs, v.State, v.Cfg+"/"+v.State
 				w.curCfg = "session configuration " + v.Cfg + ", session state " + v.State + ", logger level " + v.Log
 				packet.Logger.SetLevel(logLevels[v.Log])
 				w.runParse(v)
